@@ -120,7 +120,7 @@ def sign_patterns(n):
 #                                   spectral measure
 # ======================================================================================
 W_ZERO = 1e-26      # weights below are round-off of an exact zero (squares of 1e-16-ish overlaps)
-W_AMBIG = 1e-9      # weights in between are ill-conditioned for the Krylov dimension: probe is skipped
+W_AMBIG = 1e-7      # weights in between are ill-conditioned for the Krylov dimension: probe is skipped
 
 
 class Measure:
